@@ -229,7 +229,7 @@ def base_runs(h, tier):
             runs.append(seq_run("idc_k%d" % k, 0, {"k": k, "vt": "current", "rows": rows}, faults=((),), family="c09", kind="idconflict", k=k,
                                 conflict_version=vs[k - 1]))
     if n:
-        # version-table contents the migrator itself never writes: exercise the i32 decoding of lib.rs:293/305
+        # version-table contents the migrator itself never writes: exercise the `as u32` decoding of lib.rs:302/320
         runs.append(seq_run("x_neg", 0, {"k": 0, "vt": "current", "rows": [[-1, "neg"]]}, faults=((),), family="c09", kind="exotic"))
         runs.append(seq_run("x_big", 0, {"k": 0, "vt": "current", "rows": [[9999999999, "big"]]}, faults=((),), family="c09", kind="exotic"))
         runs.append(seq_run("x_big_id", 0, {"k": 0, "vt": "current", "rows": [[vs[0], "other-id"], [9999999999, "big"]]}, faults=((),),
@@ -580,8 +580,9 @@ def run_mig_locked(tier, seed, key, d, done, t0):
         ds["mismatch"] = mism.get("%d:%d" % (ds["shard"], ds["local"]), [])
         fl = flags.get(ds["shard"], [])
         code = fl[ds["local"]] if ds["local"] < len(fl) else None
-        ds["hyp"] = None if code is None else {"ascending": bool(code & 1), "versions_i32": bool(code & 2), "rows_i32": bool(code & 4),
-                                               "at_version": bool(code & 8), "id_conflict": bool(code & 16)}
+        ds["hyp"] = None if code is None else {"ascending": bool(code & 1), "versions_u32": bool(code & 2), "rows_u32": bool(code & 4),
+                                               "at_version": bool(code & 8), "id_conflict": bool(code & 16),
+                                               "versions_lt_2_31": bool(code & 32), "versions_distinct": bool(code & 64)}
     res = {"dir": d, "histories": hist, "cases": descr, "shard_errors": errors,
            "wall_s": round(time.time() - t0, 1), "cached": False}
     json.dump(res, open(done, "w"))
@@ -753,7 +754,7 @@ def known_entries(prop):
 
 # classifier name (Gallina boolean, evaluated inside Coq by `flag_code` in every shard) -> decoded flag
 CLASSIFIERS = {"id_conflict": lambda hyp: bool(hyp and hyp.get("id_conflict")),
-               "versions_beyond_i32": lambda hyp: bool(hyp) and not hyp.get("versions_i32")}
+               "versions_beyond_i32": lambda hyp: bool(hyp) and not hyp.get("versions_lt_2_31")}
 
 FAMILY = {"C09": ("c09",), "C10": ("c10",), "C11": ("c11",)}
 RULES = {
@@ -890,7 +891,7 @@ def mig_check(prop, tier, seed, assumptions):
     chk.cov["distribution"] = {"kinds": dist, "histories": {h["name"]: {"migrations": h["n_migs"], "build_s": h.get("build_s"), "binary_cached": h.get("build_cached")}
                                                                for h in res["histories"]}, "rejected_generated_histories": rejected,
                                "kmig_wall_s": res.get("wall_s")}
-    hyp_all = sum(1 for ds in mine if ds.get("hyp") and ds["hyp"]["ascending"] and ds["hyp"]["versions_i32"] and ds["hyp"]["at_version"])
+    hyp_all = sum(1 for ds in mine if ds.get("hyp") and ds["hyp"]["ascending"] and ds["hyp"]["versions_u32"] and ds["hyp"]["at_version"] and not ds["hyp"]["id_conflict"])
     covered, unexplained = {}, []
     for (ds, run, o) in failing:
         hit = None
@@ -911,7 +912,7 @@ def mig_check(prop, tier, seed, assumptions):
             chk.known_finding(k["id"], k["what"])
         else:
             chk.notes.append("NOTE stale known finding %s: its witness no longer fails" % k["id"])
-    chk.cov["theorem_coverage"] = {"cases_under_all_hypotheses(ascending, versions_i32, at_version)": hyp_all, "cases": len(mine),
+    chk.cov["theorem_coverage"] = {"cases_under_all_hypotheses(ascending, versions_u32, at_version, no id_conflict)": hyp_all, "cases": len(mine),
                                    "oracle_failures": len(failing), "classified_known": covered, "unexplained": len(unexplained)}
     for (ds, run, o) in unexplained[:5]:
         hd = history_dir_of(ds["history"], tier, seed)
